@@ -276,6 +276,13 @@ def run_val(ident, t, out):
             a, b, c = mixed_mod.mixed_step_memoization(int(t[1]), int(t[2]))
             return "(%d,%s,%s)" % (int(a), canon.i2s(b), canon.i2s(c))
         r = res(f)
+    elif k == "tabmemo":
+        def f():
+            n_, s_ = int(t[1]), int(t[2])
+            tb = mixed_mod.mixed_steps_tabulation(n_, s_)
+            a, b, c = mixed_mod.mixed_step_memoization(n_, s_)
+            return "(%d,%d,%d) (%d,%s,%s)" % (tuple(int(x) for x in tb[n_, s_]) + (int(a), canon.i2s(b), canon.i2s(c)))
+        r = res(f)
     elif k == "tab":
         def f():
             tb = mixed_mod.mixed_steps_tabulation(int(t[1]), int(t[2]))
